@@ -127,6 +127,10 @@ func main() {
 		constScale(os.Args[2], "pkg/core/headerhashes.go", "headerBatchCount = 2000", "headerBatchCount = 4")
 		return
 	}
+	if ms, ok := multiSpecs[os.Args[1]]; ok { // several packages in one overlay (multi.go)
+		genMulti(os.Args[1], ms, os.Args[2])
+		return
+	}
 	sp, ok := specs[os.Args[1]]
 	if !ok {
 		fatal("unknown spec %q", os.Args[1])
